@@ -165,7 +165,7 @@ func oracleC04(l *harness.Live) (c04Info, *harness.Failure) {
 
 // anyExpr draws from the union of all fragments; nodeSet tells whether Select is meaningful.
 func anyExpr(g *xgen.G, rt *rapid.T, ctx *xdoc.Node) (e xast.Expr, nodeSet bool) {
-	switch rapid.IntRange(0, 13).Draw(rt, "anyfrag") {
+	switch rapid.IntRange(0, 16).Draw(rt, "anyfrag") {
 	case 10, 11, 12, 13:
 		// unconstrained expression: predicates in any order, nested filters, any operand types
 		e = g.WildExpr(3, xgen.WildOpts{})
@@ -189,9 +189,39 @@ func anyExpr(g *xgen.G, rt *rapid.T, ctx *xdoc.Node) (e xast.Expr, nodeSet bool)
 	case 8:
 		return g.StrTop(ctx, 2), false
 	}
-	// a comparison / count over general (non-flat) paths: the operands are stateful queries
-	p := g.AxisPath(ctx, xgen.PathOpts{MaxSteps: 2, AbsShare: 3, DSlash: 3})
-	switch rapid.IntRange(0, 2).Draw(rt, "wrap") {
+	// a comparison / function call over general (non-flat) paths, possibly with stacked predicates in any order:
+	// the operands are stateful queries held in closures shared by every evaluation
+	var p xast.Expr
+	switch rapid.IntRange(0, 3).Draw(rt, "argkind") {
+	case 0:
+		p = g.AxisPath(ctx, xgen.PathOpts{MaxSteps: 2, AbsShare: 3, DSlash: 3})
+	case 1:
+		p = g.PredExpr(ctx, 1)
+	case 2:
+		p = g.PosExpr(ctx)
+	default:
+		// stacked predicates: boolean first, then positional (and more)
+		pp := g.AxisPath(ctx, xgen.PathOpts{MaxSteps: 2, AbsShare: 5, DSlash: 3})
+		last := pp.Steps[len(pp.Steps)-1].(*xast.Step)
+		n := rapid.IntRange(1, 3).Draw(rt, "nstack")
+		for i := 0; i < n; i++ {
+			if rapid.Bool().Draw(rt, "stackpos") {
+				last.Preds = append(last.Preds, g.PosPred())
+			} else {
+				last.Preds = append(last.Preds, g.BoolPred(nil, 0))
+			}
+		}
+		p = pp
+	}
+	switch rapid.IntRange(0, 6).Draw(rt, "wrap") {
+	case 3:
+		return &xast.Call{Name: "sum", Args: []xast.Expr{p}}, false
+	case 4:
+		return &xast.Call{Name: "string-join", Args: []xast.Expr{p, &xast.Str{S: ","}}}, false
+	case 5:
+		return &xast.Call{Name: "string", Args: []xast.Expr{p}}, false
+	case 6:
+		return &xast.Call{Name: "not", Args: []xast.Expr{p}}, false
 	case 0:
 		return &xast.Bin{Op: rapid.SampledFrom([]string{"=", "!="}).Draw(rt, "op"), L: p, R: &xast.Str{S: rapid.SampledFrom([]string{"", "1", "t"}).Draw(rt, "lit")}}, false
 	case 1:
